@@ -1160,3 +1160,12 @@ add("C10", "unfixed-findings-filtered-on-the-way-to-the-report", CTXF,
     [("unfixedFindings=self.get_unfixed_findings(codemod.id),", "unfixedFindings=_known_rules_only(self.get_unfixed_findings(codemod.id)),"),
      ("class CodemodExecutionContext:", "def _known_rules_only(unfixed_findings):\n    return [f for f in unfixed_findings if f.rule.url]\n\n\nclass CodemodExecutionContext:")],
     "fire", "R-REPORT-COMPLETE", "unfixedFindings")
+
+RQW = "codemodder/dependency_management/requirements_txt_writer.py"
+for _p in ("C14", "C20"):
+    add(_p, "manifest-read-handler-narrowed-to-oserror", RQW,
+        [("                return f.readlines()\n        except Exception:", "                return f.readlines()\n        except OSError:")],
+        "fire", "R-DECODE-HANDLED", "read-under-try")
+    add(_p, "benign-manifest-read-handler-lists-valueerror", RQW,
+        [("                return f.readlines()\n        except Exception:", "                return f.readlines()\n        except (OSError, ValueError):")],
+        "silent")
